@@ -113,7 +113,8 @@ Fixpoint first_diff (m o : list ostep) (i : nat) : option nat :=
 Definition model_steps (ops : list op) : list ostep := map project_step (snd (run ops)).
 
 (* ------------------------------------------------------------------ the monitors *)
-Record mrun := { mr_run : Z; mr_owner : Z; mr_host : Z; mr_hdr : Z; mr_held : bool }.
+Record mrun := { mr_run : Z; mr_owner : Z; mr_host : Z; mr_hdr : Z; mr_held : bool;
+                 mr_caps : N -> Z (* negotiated event limits of this connection, by category index *) }.
 Record mapp := {
   ma_key : Z;
   ma_gen : nat;                 (* which incarnation of the application entry (re-created after inactivity) *)
@@ -157,6 +158,7 @@ Definition V_CONNECTED_UNSOUND : N := 304. (* C03: agent told connected while no
 Definition V_NO_RETRY : N := 305.         (* C03: a failed connect is not retried although the back-off has expired *)
 Definition V_NO_RESTART : N := 306.       (* C03: restart answer at harvest not followed by a fresh connect *)
 Definition V_PARAMS : N := 401.           (* C04: request does not carry its application's license / host / headers *)
+Definition V_CAPACITY : N := 601.         (* C05: an event payload holds more than, or reports a reservoir other than, the negotiated limit *)
 Definition V_HUNG : N := 501.             (* C11: the final flush did not return *)
 Definition V_FINAL_DUP : N := 502.        (* C11: a unit of data in two final requests *)
 
@@ -261,6 +263,17 @@ Definition note_request (i : nat) (m : mst) (q : oreq) : mst :=
                           m V_PARAMS i
               | None => viol m V_PARAMS i        (* a request for a run id the collector never issued *)
               end in
+    (* C05: an event payload (custom, error, transaction, span events: the ones that report their reservoir)
+       never holds more than the limit negotiated for that connection -- or a later connection of the same
+       application, for a late tick -- and reports that limit as its reservoir size; the halves of a split
+       transaction event payload report their own length *)
+    let m1 :=
+      if (o_kind q =? 2)%N && is_event_idx (o_cat q) then
+        let n := Z.of_nat (length (o_tags q)) in
+        let ok_cap := existsb (fun r' => (mr_owner r' =? o_owner q) && (mr_caps r' (o_cat q) =? o_cap q)) (m_runs m1) in
+        let split_half := (o_cat q =? 6)%N && (o_cap q =? n) in
+        viol_if (negb ((n <=? o_cap q) && (ok_cap || split_half))) m1 V_CAPACITY i
+      else m1 in
     fold_left (fun mm ct =>
                  let mm1 := viol_if (negb (offered_under mm (o_run q) (fst ct) (snd ct))) mm V_FOREIGN i in
                  let mm2 := viol_if (mem_ct ct (m_dead mm1)) mm1 V_DEAD_RESENT i in
@@ -285,7 +298,7 @@ Definition retry_cat (c : N) : bool := (c =? 0)%N || is_event_idx c || (c =? 8)%
 Definition end_run (m : mst) (r : Z) : mst :=
   match find_run r (m_runs m) with
   | Some x => w_run_lost (w_runs m (set_run {| mr_run := r; mr_owner := mr_owner x; mr_host := mr_host x;
-                                               mr_hdr := mr_hdr x; mr_held := false |} (m_runs m))) true
+                                               mr_hdr := mr_hdr x; mr_held := false; mr_caps := mr_caps x |} (m_runs m))) true
   | None => m
   end.
 
@@ -443,8 +456,10 @@ Definition m_step (i : nat) (m : mst) (o : op) (obs : ostep) : mst :=
                           match find_app k (m_apps m1) with
                           | Some a =>
                               if negb (ma_terminal a =? 0)%N || owner_has_held_run m1 k then m1 else
+                              let caps (c : N) : Z :=
+                                Z.of_N (cr_caps r (match c with 1%N => CCustom | 2%N => CErrEv | 6%N => CTxnEv | 7%N => CSpan | _ => CLog end)) in
                               let m2 := w_runs m1 (set_run {| mr_run := Z.of_N (cr_run r); mr_owner := k; mr_host := mt_host t;
-                                                              mr_hdr := Z.of_N (cr_hdr r); mr_held := true |} (m_runs m1)) in
+                                                              mr_hdr := Z.of_N (cr_hdr r); mr_held := true; mr_caps := caps |} (m_runs m1)) in
                               let m3 := w_ahs m2 (m_ahs m2 ++ [{| mh_run := Z.of_N (cr_run r); mh_key := k; mh_gen := ma_gen a |}]) in
                               w_apps m3 (set_app (app_with a (ma_last_attempt a) (ma_last_activity a) 0 false) (m_apps m3))
                           | None => m1
